@@ -1,7 +1,954 @@
 package main
 
-import "xv/xvlib"
+// C07 op lines (also the input of the Lean driver `xvdriver enc`):
+//
+//	d3 <tx>      byte string hashed into the v3 signing digest (hex); the harness answers with the bytes its
+//	             interpreter of the *extracted* schema produces, after checking that their double SHA-256 is
+//	             txhash.MakeTxDigestHash                                   -> <hex>
+//	i3 <tx>      same for the id pre-image (signatures included) / txhash.MakeTransactionID   -> <hex>
+//	d1 <tx>      v1/v2 JSON stream: the extracted schema's interpreter reproduces MakeTxDigestHash and
+//	             MakeTransactionID                                          -> ok
+//	k1 <ver> addr-amount   two transactions differing in (FromAddr, Amount) of an input: do their digests collide?
+//	                                                                        -> collide|distinct
+//	vt txid=<B|M|X> base=<tx> mut=<tx>   State.VerifyTx on the transaction `mut`, obtained from the accepted
+//	             transaction `base` by one mutation; txid B = the id of base is kept, M = recomputed, X = garbage.
+//	             Compared with the Lean decision model when base is a v3 transaction, else "-".   -> accept|reject
+//
+// <tx> is one token: fields joined by ';' (see specOf).  In vt lines byte strings may be symbolic:
+// A<i> address of account i, C<n> account name n, C<n>/A<i> signer uri, K<i> public key of account i,
+// S<k>.<r> signature by key k over the digest of r (B base, M this transaction, O another transaction),
+// X<k>_<k>….<r> aggregated signature of keys k… over that digest.
 
-func execC07(line string, oracle bool) string { return "bad-op" }
+import (
+	"bytes"
+	"crypto/ecdsa"
+	"encoding/hex"
+	"fmt"
+	"reflect"
+	"sort"
+	"strconv"
+	"strings"
 
-func genC07(tier string, rng *xvlib.Rng, run func(string, bool)) {}
+	"github.com/golang/protobuf/proto"
+
+	"github.com/xuperchain/xupercore/bcs/ledger/xledger/state"
+	sctx "github.com/xuperchain/xupercore/bcs/ledger/xledger/state/context"
+	"github.com/xuperchain/xupercore/bcs/ledger/xledger/state/utxo/txhash"
+	txn "github.com/xuperchain/xupercore/bcs/ledger/xledger/tx"
+	pb "github.com/xuperchain/xupercore/bcs/ledger/xledger/xldgpb"
+	"github.com/xuperchain/xupercore/kernel/mock"
+	"github.com/xuperchain/xupercore/lib/crypto/hash"
+	"github.com/xuperchain/xupercore/protos"
+	"xv/xvlib"
+)
+
+// ---------------------------------------------------------------- symbolic byte strings
+
+func acctName(n int) string { return fmt.Sprintf("XC%016d@xuper", n) }
+
+var symTab map[string]string // real bytes -> symbolic token (for printing)
+
+func initSymTab() {
+	if symTab != nil {
+		return
+	}
+	symTab = map[string]string{}
+	for i := 0; i < 8; i++ {
+		symTab[acct(i).Address] = "A" + strconv.Itoa(i)
+		symTab[acct(i).PubJSON] = "K" + strconv.Itoa(i)
+		symTab[acctName(i)] = "C" + strconv.Itoa(i)
+		for j := 0; j < 8; j++ {
+			symTab[acctName(i)+"/"+acct(j).Address] = fmt.Sprintf("C%d/A%d", i, j)
+		}
+	}
+}
+
+func symOut(b []byte) string {
+	if len(b) == 0 {
+		return "-"
+	}
+	if t, ok := symTab[string(b)]; ok {
+		return t
+	}
+	return hex.EncodeToString(b)
+}
+
+func symIn(tok string) []byte {
+	if tok == "-" || tok == "" {
+		return nil
+	}
+	c := tok[0]
+	if c >= 'A' && c <= 'Z' {
+		num := func(s string) int { n, err := strconv.Atoi(s); must(err); return n }
+		switch {
+		case c == 'A':
+			return []byte(acct(num(tok[1:])).Address)
+		case c == 'K':
+			return []byte(acct(num(tok[1:])).PubJSON)
+		case c == 'C':
+			if i := strings.Index(tok, "/A"); i > 0 {
+				return []byte(acctName(num(tok[1:i])) + "/" + acct(num(tok[i+2:])).Address)
+			}
+			return []byte(acctName(num(tok[1:])))
+		case c == 'S' || c == 'X':
+			return []byte(symPrefix + tok) // resolved in the second pass
+		}
+		panic("bad symbolic token " + tok)
+	}
+	return unhx(tok)
+}
+
+func must(err error) {
+	if err != nil {
+		panic(err)
+	}
+}
+
+// ---------------------------------------------------------------- tx <-> spec
+
+func joinOr(xs []string, sep string) string {
+	if len(xs) == 0 {
+		return "~"
+	}
+	return strings.Join(xs, sep)
+}
+
+func splitOr(s, sep string) []string {
+	if s == "~" || s == "" {
+		return nil
+	}
+	return strings.Split(s, sep)
+}
+
+
+// sigOut prints a signature: symbolic placeholders as their token.  In a mutant, a signature inherited from the
+// base (".M" = made over the base's digest) is printed ".B"; one made for the mutant itself is marked ".N" -> ".M".
+var printingMutant bool
+
+func sigOut(b []byte) string {
+	if bytes.HasPrefix(b, []byte(symPrefix)) {
+		tok := string(b[len(symPrefix):])
+		if printingMutant {
+			switch {
+			case strings.HasSuffix(tok, ".M"):
+				tok = strings.TrimSuffix(tok, ".M") + ".B"
+			case strings.HasSuffix(tok, ".N"):
+				tok = strings.TrimSuffix(tok, ".N") + ".M"
+			}
+		}
+		return tok
+	}
+	return symOut(b)
+}
+
+func specOf(tx *pb.Transaction) string {
+	initSymTab()
+	var f []string
+	add := func(k, v string) { f = append(f, k+"="+v) }
+	var xs []string
+	for _, i := range tx.TxInputs {
+		xs = append(xs, fmt.Sprintf("%s/%d/%s/%s/%d", symOut(i.RefTxid), i.RefOffset, symOut(i.FromAddr), symOut(i.Amount), i.FrozenHeight))
+	}
+	add("in", joinOr(xs, ","))
+	xs = nil
+	for _, o := range tx.TxOutputs {
+		xs = append(xs, fmt.Sprintf("%s/%s/%d", symOut(o.Amount), symOut(o.ToAddr), o.FrozenHeight))
+	}
+	add("out", joinOr(xs, ","))
+	b2i := func(b bool) int {
+		if b {
+			return 1
+		}
+		return 0
+	}
+	add("desc", symOut(tx.Desc))
+	add("cb", strconv.Itoa(b2i(tx.Coinbase)))
+	add("nonce", symOut([]byte(tx.Nonce)))
+	add("ts", strconv.FormatInt(tx.Timestamp, 10))
+	add("ver", strconv.Itoa(int(tx.Version)))
+	add("ag", strconv.Itoa(b2i(tx.Autogen)))
+	xs = nil
+	for _, i := range tx.TxInputsExt {
+		xs = append(xs, fmt.Sprintf("%s/%s/%s/%d", symOut([]byte(i.Bucket)), symOut(i.Key), symOut(i.RefTxid), i.RefOffset))
+	}
+	add("inx", joinOr(xs, ","))
+	xs = nil
+	for _, o := range tx.TxOutputsExt {
+		xs = append(xs, fmt.Sprintf("%s/%s/%s", symOut([]byte(o.Bucket)), symOut(o.Key), symOut(o.Value)))
+	}
+	add("outx", joinOr(xs, ","))
+	xs = nil
+	for _, r := range tx.ContractRequests {
+		var as, ls []string
+		var ks []string
+		for k := range r.Args {
+			ks = append(ks, k)
+		}
+		sort.Strings(ks)
+		for _, k := range ks {
+			as = append(as, symOut([]byte(k))+":"+symOut(r.Args[k]))
+		}
+		for _, l := range r.ResourceLimits {
+			ls = append(ls, fmt.Sprintf("%d:%d", int32(l.Type), l.Limit))
+		}
+		xs = append(xs, fmt.Sprintf("%s/%s/%s/%s/%s/%s", symOut([]byte(r.ModuleName)), symOut([]byte(r.ContractName)), symOut([]byte(r.MethodName)),
+			joinOr(as, "+"), joinOr(ls, "+"), symOut([]byte(r.Amount))))
+	}
+	add("req", joinOr(xs, ","))
+	add("init", symOut([]byte(tx.Initiator)))
+	xs = nil
+	for _, a := range tx.AuthRequire {
+		xs = append(xs, strings.Replace(symOut([]byte(a)), "/", "|", -1))
+	}
+	add("auth", joinOr(xs, ","))
+	sigs := func(ss []*protos.SignatureInfo) string {
+		var xs []string
+		for _, s := range ss {
+			xs = append(xs, symOut([]byte(s.PublicKey))+"/"+sigOut(s.Sign))
+		}
+		return joinOr(xs, ",")
+	}
+	add("isig", sigs(tx.InitiatorSigns))
+	add("asig", sigs(tx.AuthRequireSigns))
+	if tx.XuperSign != nil {
+		add("xs", "1")
+		xs = nil
+		for _, k := range tx.XuperSign.PublicKeys {
+			xs = append(xs, symOut(k))
+		}
+		add("xpk", joinOr(xs, ","))
+		add("xsg", sigOut(tx.XuperSign.Signature))
+	} else {
+		add("xs", "0")
+		add("xpk", "~")
+		add("xsg", "-")
+	}
+	if tx.HDInfo != nil {
+		add("hd", "1")
+		add("hdpk", symOut(tx.HDInfo.HdPublicKey))
+		add("hdoh", symOut(tx.HDInfo.OriginalHash))
+	} else {
+		add("hd", "0")
+		add("hdpk", "-")
+		add("hdoh", "-")
+	}
+	// fields outside digest and id
+	add("bid", symOut(tx.Blockid))
+	add("rts", strconv.FormatInt(tx.ReceivedTimestamp, 10))
+	if tx.ModifyBlock != nil {
+		add("mb", fmt.Sprintf("%d/%s", b2i(tx.ModifyBlock.Marked), symOut([]byte(tx.ModifyBlock.EffectiveTxid))))
+	} else {
+		add("mb", "~")
+	}
+	return strings.Join(f, ";")
+}
+
+func parseSpec(s string) *pb.Transaction {
+	m := map[string]string{}
+	for _, f := range strings.Split(s, ";") {
+		if i := strings.Index(f, "="); i > 0 {
+			m[f[:i]] = f[i+1:]
+		}
+	}
+	tx := &pb.Transaction{}
+	for _, e := range splitOr(m["in"], ",") {
+		p := strings.Split(e, "/")
+		tx.TxInputs = append(tx.TxInputs, &protos.TxInput{RefTxid: symIn(p[0]), RefOffset: int32(atoi(p[1])), FromAddr: symIn(p[2]), Amount: symIn(p[3]), FrozenHeight: atoi(p[4])})
+	}
+	for _, e := range splitOr(m["out"], ",") {
+		p := strings.Split(e, "/")
+		tx.TxOutputs = append(tx.TxOutputs, &protos.TxOutput{Amount: symIn(p[0]), ToAddr: symIn(p[1]), FrozenHeight: atoi(p[2])})
+	}
+	tx.Desc = symIn(m["desc"])
+	tx.Coinbase = m["cb"] == "1"
+	tx.Nonce = string(symIn(m["nonce"]))
+	tx.Timestamp = atoi(m["ts"])
+	tx.Version = int32(atoi(m["ver"]))
+	tx.Autogen = m["ag"] == "1"
+	for _, e := range splitOr(m["inx"], ",") {
+		p := strings.Split(e, "/")
+		tx.TxInputsExt = append(tx.TxInputsExt, &protos.TxInputExt{Bucket: string(symIn(p[0])), Key: symIn(p[1]), RefTxid: symIn(p[2]), RefOffset: int32(atoi(p[3]))})
+	}
+	for _, e := range splitOr(m["outx"], ",") {
+		p := strings.Split(e, "/")
+		tx.TxOutputsExt = append(tx.TxOutputsExt, &protos.TxOutputExt{Bucket: string(symIn(p[0])), Key: symIn(p[1]), Value: symIn(p[2])})
+	}
+	for _, e := range splitOr(m["req"], ",") {
+		p := strings.Split(e, "/")
+		r := &protos.InvokeRequest{ModuleName: string(symIn(p[0])), ContractName: string(symIn(p[1])), MethodName: string(symIn(p[2])), Amount: string(symIn(p[5]))}
+		for _, a := range splitOr(p[3], "+") {
+			kv := strings.Split(a, ":")
+			if r.Args == nil {
+				r.Args = map[string][]byte{}
+			}
+			r.Args[string(symIn(kv[0]))] = symIn(kv[1])
+		}
+		for _, l := range splitOr(p[4], "+") {
+			kv := strings.Split(l, ":")
+			r.ResourceLimits = append(r.ResourceLimits, &protos.ResourceLimit{Type: protos.ResourceType(atoi(kv[0])), Limit: atoi(kv[1])})
+		}
+		tx.ContractRequests = append(tx.ContractRequests, r)
+	}
+	tx.Initiator = string(symIn(m["init"]))
+	for _, a := range splitOr(m["auth"], ",") {
+		tx.AuthRequire = append(tx.AuthRequire, string(symIn(strings.Replace(a, "|", "/", -1))))
+	}
+	sigs := func(s string) []*protos.SignatureInfo {
+		var out []*protos.SignatureInfo
+		for _, e := range splitOr(s, ",") {
+			p := strings.Split(e, "/")
+			out = append(out, &protos.SignatureInfo{PublicKey: string(symIn(p[0])), Sign: symIn(p[1])})
+		}
+		return out
+	}
+	tx.InitiatorSigns = sigs(m["isig"])
+	tx.AuthRequireSigns = sigs(m["asig"])
+	if m["xs"] == "1" {
+		tx.XuperSign = &pb.XuperSignature{Signature: symIn(m["xsg"])}
+		for _, k := range splitOr(m["xpk"], ",") {
+			tx.XuperSign.PublicKeys = append(tx.XuperSign.PublicKeys, symIn(k))
+		}
+	}
+	if m["hd"] == "1" {
+		tx.HDInfo = &pb.HDInfo{HdPublicKey: symIn(m["hdpk"]), OriginalHash: symIn(m["hdoh"])}
+	}
+	tx.Blockid = symIn(m["bid"])
+	if m["rts"] != "" {
+		tx.ReceivedTimestamp = atoi(m["rts"])
+	}
+	if mb := m["mb"]; mb != "~" && mb != "" {
+		p := strings.Split(mb, "/")
+		tx.ModifyBlock = &pb.ModifyBlock{Marked: p[0] == "1", EffectiveTxid: string(symIn(p[1]))}
+	}
+	return tx
+}
+
+// resolveSigs replaces the symbolic signatures of tx (second pass).  Digest refs: B = digest of the base
+// (the recorded bytes of the base's own signature are reused, signatures are part of the id), M = digest of this
+// transaction, O = another transaction.  made records token -> bytes.
+func resolveSigs(tx *pb.Transaction, baseDigest []byte, made map[string][][]byte, reuse map[string][][]byte) {
+	self, err := txhash.MakeTxDigestHash(tx)
+	must(err)
+	res := func(b []byte) []byte {
+		if !bytes.HasPrefix(b, []byte(symPrefix)) {
+			return b
+		}
+		tok := string(b[len(symPrefix):])
+		dot := strings.LastIndex(tok, ".")
+		var d []byte
+		switch tok[dot+1:] {
+		case "B":
+			// the k-th use of a token in the mutant is the k-th signature the base made with it
+			if r := reuse[tok[:dot]+".M"]; len(r) > 0 {
+				reuse[tok[:dot]+".M"] = append(r[1:], r[0])
+				return r[0]
+			}
+			d = baseDigest
+		case "M":
+			d = self
+		case "O":
+			d = sha("xv-other-tx")
+		default:
+			panic("bad digest ref in " + tok)
+		}
+		var sig []byte
+		if tok[0] == 'S' {
+			k, err := strconv.Atoi(tok[1:dot])
+			must(err)
+			sig = signBy(k, d)
+		} else {
+			var keys []*ecdsa.PrivateKey
+			for _, ks := range strings.Split(tok[1:dot], "_") {
+				k, err := strconv.Atoi(ks)
+				must(err)
+				keys = append(keys, acct(k).Pri)
+			}
+			sig, err = xvlib.Crypto().MultiSign(keys, d)
+			must(err)
+		}
+		if made != nil {
+			made[tok] = append(made[tok], sig)
+		}
+		return sig
+	}
+	for _, s := range tx.InitiatorSigns {
+		s.Sign = res(s.Sign)
+	}
+	for _, s := range tx.AuthRequireSigns {
+		s.Sign = res(s.Sign)
+	}
+	if tx.XuperSign != nil {
+		tx.XuperSign.Signature = res(tx.XuperSign.Signature)
+	}
+}
+
+const symPrefix = "\x00sym:"
+
+// ---------------------------------------------------------------- real state
+
+type fakeAcl struct{}
+
+func (fakeAcl) GetAccountACL(name string) (*protos.Acl, error) {
+	for n := 0; n < 8; n++ {
+		if name == acctName(n) {
+			return &protos.Acl{Pm: &protos.PermissionModel{Rule: protos.PermissionRule_SIGN_THRESHOLD, AcceptValue: 1},
+				AksWeight: map[string]float64{acct(n).Address: 1}}, nil
+		}
+	}
+	return nil, nil
+}
+func (fakeAcl) GetContractMethodACL(c, m string) (*protos.Acl, error) { return nil, nil }
+func (fakeAcl) GetAccountAddresses(name string) ([]string, error) {
+	for n := 0; n < 8; n++ {
+		if name == acctName(n) {
+			return []string{acct(n).Address}, nil
+		}
+	}
+	return nil, nil
+}
+
+var theState *state.State
+
+func getState() *state.State {
+	if theState != nil {
+		return theState
+	}
+	l := getLedger()
+	rootTx, err := txn.GenerateRootTx(genesisConf)
+	must(err)
+	rb, err := l.FormatRootBlock([]*pb.Transaction{rootTx})
+	must(err)
+	if st := l.ConfirmBlock(rb, true); !st.Succ {
+		xvlib.Die("confirm root block: %v", st.Error)
+	}
+	econf, err := mock.NewEnvConfForTest()
+	must(err)
+	c, err := sctx.NewStateCtx(econf, "xuper", l, xvlib.Crypto())
+	must(err)
+	c.EnvCfg = ledgerEnv
+	s, err := state.NewState(c)
+	if err != nil {
+		xvlib.Die("new state: %v", err)
+	}
+	s.SetAclMG(fakeAcl{})
+	if err := s.Play(rb.Blockid); err != nil {
+		xvlib.Die("play root: %v", err)
+	}
+	theState = s
+	return s
+}
+
+// ---------------------------------------------------------------- d3 / i3 / d1 / k1
+
+func schemaTxHashes(tx *pb.Transaction) (dpre, ipre []byte, err error) {
+	items := schemas.TxDigestV3
+	if tx.Version < 3 {
+		items = schemas.TxDigestV1
+	}
+	dpre, err = interp(items, reflect.ValueOf(tx), map[string]bool{"includeSigns": false})
+	if err != nil {
+		return
+	}
+	ipre, err = interp(items, reflect.ValueOf(tx), map[string]bool{"includeSigns": true})
+	return
+}
+
+func execDigest(kind string, tx *pb.Transaction) string {
+	dpre, ipre, err := schemaTxHashes(tx)
+	if err != nil {
+		return "schema-mismatch(" + err.Error() + ")"
+	}
+	rd, err1 := txhash.MakeTxDigestHash(tx)
+	ri, err2 := txhash.MakeTransactionID(tx)
+	if err1 != nil || err2 != nil {
+		return "error"
+	}
+	if !bytes.Equal(hash.DoubleSha256(dpre), rd) || !bytes.Equal(hash.DoubleSha256(ipre), ri) {
+		return "schema-mismatch"
+	}
+	switch kind {
+	case "d3":
+		return hx(dpre)
+	case "i3":
+		return hx(ipre)
+	}
+	return "ok"
+}
+
+func k1Pair(ver int32) (*pb.Transaction, *pb.Transaction) {
+	mk := func(from, amt []byte) *pb.Transaction {
+		return &pb.Transaction{Version: ver, Nonce: "n", Timestamp: 5, Initiator: acct(0).Address,
+			TxInputs:  []*protos.TxInput{{RefTxid: sha("xv-ref"), RefOffset: 0, FromAddr: from, Amount: amt}},
+			TxOutputs: []*protos.TxOutput{{Amount: []byte{9}, ToAddr: []byte(acct(1).Address)}}}
+	}
+	x := []byte(acct(0).Address)
+	return mk(x, nil), mk(nil, x)
+}
+
+func execK1(w []string, oracle bool) string {
+	ver := int32(atoi(w[1]))
+	a, b := k1Pair(ver)
+	da, _ := txhash.MakeTxDigestHash(a)
+	db, _ := txhash.MakeTxDigestHash(b)
+	ia, _ := txhash.MakeTransactionID(a)
+	ib, _ := txhash.MakeTransactionID(b)
+	if bytes.Equal(da, db) && bytes.Equal(ia, ib) {
+		if oracle {
+			out.Violate(xvlib.Violation{Key: "txdigest-v1v2-not-injective",
+				What: fmt.Sprintf("two version-%d transactions that differ in covered fields (input FromAddr=X, Amount empty / FromAddr empty, Amount=X) have the same signing digest and the same txid", ver),
+				Ops:  []string{strings.Join(w, " ")}, Impl: []string{"collide"}})
+		}
+		return "collide"
+	}
+	return "distinct"
+}
+
+// ---------------------------------------------------------------- vt
+
+func execVt(line string, oracle bool) (string, int32) {
+	m := parseKV(strings.Fields(line)[1:])
+	base := parseSpec(m["base"])
+	made := map[string][][]byte{}
+	resolveSigs(base, nil, made, nil) // the base is signed over its own digest
+	bd, err := txhash.MakeTxDigestHash(base)
+	must(err)
+	base.Txid, err = txhash.MakeTransactionID(base)
+	must(err)
+	mut := parseSpec(m["mut"])
+	resolveSigs(mut, bd, nil, made)
+	switch m["txid"] {
+	case "B":
+		mut.Txid = base.Txid
+	case "M":
+		mut.Txid, err = txhash.MakeTransactionID(mut)
+		must(err)
+	default:
+		mut.Txid = sha("xv-garbage-id")
+	}
+	ok, _ := getState().VerifyTx(mut)
+	if ok {
+		return "accept", base.Version
+	}
+	return "reject", base.Version
+}
+
+// ---------------------------------------------------------------- exec
+
+func execC07(line string, oracle bool) string {
+	w := strings.Fields(line)
+	if len(w) == 0 {
+		return "bad-op"
+	}
+	switch w[0] {
+	case "d3", "i3", "d1":
+		return execDigest(w[0], parseSpec(w[1]))
+	case "k1":
+		return execK1(w, oracle)
+	case "vt":
+		res, ver := execVt(line, oracle)
+		if oracle {
+			judgeVt(line, res)
+		}
+		out.Count("vt-v" + strconv.Itoa(int(ver)) + ":" + res)
+		if ver < 3 {
+			return "-" // v1/v2 digests are not modelled byte for byte: judged by the oracle only
+		}
+		return res
+	}
+	return "bad-op"
+}
+
+// judgeVt: the impl-side oracle.  cls=<class> on the op line says what the mutation touched.
+func judgeVt(line, res string) {
+	m := parseKV(strings.Fields(line)[1:])
+	cls := m["cls"]
+	switch {
+	case cls == "base":
+		if res != "accept" {
+			out.Violate(xvlib.Violation{Key: "signed-tx-rejected", What: "a correctly signed transaction is rejected by VerifyTx", Ops: []string{line}, Impl: []string{res}})
+		}
+	case strings.HasPrefix(cls, "obs:"):
+		out.Count("observation:" + cls[4:] + ":" + res)
+	case cls == "noop":
+		out.Count("noop-mutation:" + res)
+	default:
+		if res == "accept" {
+			key := "mutant-accepted:" + cls
+			switch {
+			case strings.HasPrefix(cls, "HDInfo") && strings.Contains(m["base"], ";ver=1;"):
+				key = "txdigest-v1-omits-hdinfo"
+			case strings.HasPrefix(cls, "sigarea:"):
+				key = "signature-area-malleable"
+			}
+			out.Violate(xvlib.Violation{Key: key,
+				What: fmt.Sprintf("VerifyTx accepts a transaction obtained from a signed one by changing %s (txid %s)", cls, map[string]string{"B": "kept", "M": "recomputed", "X": "garbage"}[m["txid"]]),
+				Ops:  []string{line}, Impl: []string{res}})
+		}
+	}
+}
+
+// ---------------------------------------------------------------- generators
+
+func randTx(r *xvlib.Rng, ver int32) *pb.Transaction {
+	vl := func(max int) []byte {
+		if r.Chance(1, 4) {
+			return nil
+		}
+		return randBytes(r, 1+r.Intn(max))
+	}
+	tx := &pb.Transaction{Version: ver, Desc: vl(20), Coinbase: r.Chance(1, 5), Nonce: string(vl(10)), Timestamp: randInt(r, 64),
+		Autogen: r.Chance(1, 5), Initiator: string(vl(34))}
+	for i := r.Intn(3); i > 0; i-- {
+		tx.TxInputs = append(tx.TxInputs, &protos.TxInput{RefTxid: vl(32), RefOffset: int32(randInt(r, 32)), FromAddr: vl(34), Amount: vl(8), FrozenHeight: randInt(r, 64)})
+	}
+	for i := r.Intn(3); i > 0; i-- {
+		tx.TxOutputs = append(tx.TxOutputs, &protos.TxOutput{Amount: vl(8), ToAddr: vl(34), FrozenHeight: randInt(r, 64)})
+	}
+	for i := r.Intn(3); i > 0; i-- {
+		tx.TxInputsExt = append(tx.TxInputsExt, &protos.TxInputExt{Bucket: string(vl(6)), Key: vl(8), RefTxid: vl(32), RefOffset: int32(randInt(r, 32))})
+	}
+	for i := r.Intn(3); i > 0; i-- {
+		tx.TxOutputsExt = append(tx.TxOutputsExt, &protos.TxOutputExt{Bucket: string(vl(6)), Key: vl(8), Value: vl(12)})
+	}
+	for i := r.Intn(3); i > 0; i-- {
+		q := &protos.InvokeRequest{ModuleName: string(vl(6)), ContractName: string(vl(8)), MethodName: string(vl(8)), Amount: string(vl(4))}
+		for j := r.Intn(3); j > 0; j-- {
+			if q.Args == nil {
+				q.Args = map[string][]byte{}
+			}
+			q.Args[hex.EncodeToString(randBytes(r, 1+r.Intn(3)))] = vl(10)
+		}
+		for j := r.Intn(3); j > 0; j-- {
+			q.ResourceLimits = append(q.ResourceLimits, &protos.ResourceLimit{Type: protos.ResourceType(r.Intn(4)), Limit: randInt(r, 64)})
+		}
+		tx.ContractRequests = append(tx.ContractRequests, q)
+	}
+	for i := r.Intn(3); i > 0; i-- {
+		tx.AuthRequire = append(tx.AuthRequire, string(vl(40)))
+	}
+	for i := r.Intn(3); i > 0; i-- {
+		tx.InitiatorSigns = append(tx.InitiatorSigns, &protos.SignatureInfo{PublicKey: string(vl(30)), Sign: vl(40)})
+	}
+	for i := r.Intn(3); i > 0; i-- {
+		tx.AuthRequireSigns = append(tx.AuthRequireSigns, &protos.SignatureInfo{PublicKey: string(vl(30)), Sign: vl(40)})
+	}
+	if r.Chance(1, 3) {
+		tx.XuperSign = &pb.XuperSignature{Signature: vl(40)}
+		for i := r.Intn(3); i > 0; i-- {
+			tx.XuperSign.PublicKeys = append(tx.XuperSign.PublicKeys, vl(30))
+		}
+	}
+	if r.Chance(1, 2) {
+		tx.HDInfo = &pb.HDInfo{HdPublicKey: vl(20), OriginalHash: vl(32)}
+	}
+	return tx
+}
+
+// base forms, as specs with symbolic signers
+func baseSpecs(ver int) map[string]string {
+	in := func(owner string, i int) string { return fmt.Sprintf("%s/%d/%s/64/0", hex.EncodeToString(sha("xv-ref"+strconv.Itoa(i))), i, owner) }
+	common := func(ins []string, init, auth, isig, asig, xs string) string {
+		hd := "hd=0;hdpk=-;hdoh=-"
+		if ver >= 2 {
+			hd = "hd=1;hdpk=6864706b;hdoh=" + hex.EncodeToString(sha("xv-oh"))
+		}
+		return fmt.Sprintf("in=%s;out=3c/A5/0,28/A0/7;desc=7472616e73666572;cb=0;nonce=6e31;ts=1700000001;ver=%d;ag=0;inx=~;outx=~;req=~;init=%s;auth=%s;isig=%s;asig=%s;%s;%s;bid=-;rts=0;mb=~",
+			strings.Join(ins, ","), ver, init, auth, isig, asig, xs, hd)
+	}
+	noX := "xs=0;xpk=~;xsg=-"
+	return map[string]string{
+		"ak":      common([]string{in("A0", 0), in("A0", 1)}, "A0", "~", "K0/S0.M", "~", noX),
+		"multi":   common([]string{in("A0", 0), in("A1", 1), in("A2", 2)}, "A0", "A1,A2", "K0/S0.M", "K1/S1.M,K2/S2.M", noX),
+		"account": common([]string{in("C1", 0), in("A0", 1)}, "A0", "C1|A1", "K0/S0.M", "K1/S1.M", noX),
+		"acctini": common([]string{in("C1", 0)}, "C1", "C1|A1", "K1/S1.M", "K1/S1.M", noX),
+		"xuper":   common([]string{in("A0", 0), in("A1", 1)}, "A0", "A1", "~", "~", "xs=1;xpk=K0,K1;xsg=X0_1.M"),
+	}
+}
+
+type txMutant struct {
+	cls string
+	tx  *pb.Transaction
+}
+
+func isSym(b []byte) bool { return bytes.HasPrefix(b, []byte(symPrefix)) }
+
+// mutateBytes: the ways a byte string is changed
+func mutateBytes(v []byte) map[string][]byte {
+	if isSym(v) {
+		return map[string][]byte{"corrupt": {0xde, 0xad, 0xbe, 0xef}, "clear": nil}
+	}
+	res := map[string][]byte{"append": append(append([]byte{}, v...), 1)}
+	if len(v) > 0 {
+		f, _ := flipLast(v)
+		res["flip"] = f
+		res["trunc"] = append([]byte{}, v[:len(v)-1]...)
+		res["clear"] = nil
+	}
+	return res
+}
+
+// schemaMutants walks the leaf paths of the Transaction message (extracted from the .pb.go struct tags) and
+// produces every single-field mutant of tx.
+func schemaMutants(tx *pb.Transaction, form string) []txMutant {
+	var res []txMutant
+	emit := func(cls string, f func(t *pb.Transaction)) {
+		t := proto.Clone(tx).(*pb.Transaction)
+		f(t)
+		res = append(res, txMutant{cls, t})
+	}
+	excluded := map[string]bool{"Blockid": true, "ReceivedTimestamp": true}
+	for _, path := range schemas.TxFields {
+		if path == "Txid" {
+			continue
+		}
+		cls := path
+		if excluded[path] || strings.HasPrefix(path, "ModifyBlock.") {
+			cls = "obs:outside-id:" + path
+		}
+		if form == "acctini" && strings.HasPrefix(path, "AuthRequireSigns[]") {
+			cls = "sigarea:" + path // the address is already verified through InitiatorSigns
+		}
+		path := path
+		nIdx := strings.Count(path, "[]")
+		// which index vectors exist on the base
+		var idxs [][]int
+		switch nIdx {
+		case 0:
+			idxs = [][]int{nil}
+		case 1:
+			c, ok := evalPath(reflect.ValueOf(tx), path[:strings.Index(path, "[]")], nil)
+			for i := 0; i < lenOf(c, ok) && i < 3; i++ {
+				idxs = append(idxs, []int{i})
+			}
+		default:
+			continue // nested leaves (ResourceLimits) are reached when the outer container is grown below
+		}
+		for _, idx := range idxs {
+			idx := idx
+			leaf := func(t *pb.Transaction) reflect.Value {
+				v, ok := evalPathAlloc(reflect.ValueOf(t), path, idx)
+				if !ok {
+					panic("cannot reach " + path)
+				}
+				return v
+			}
+			v0 := leaf(proto.Clone(tx).(*pb.Transaction))
+			switch v0.Kind() {
+			case reflect.Slice: // []byte
+				for way, nv := range mutateBytes(v0.Bytes()) {
+					nv := nv
+					emit(cls+":"+way, func(t *pb.Transaction) { leaf(t).SetBytes(nv) })
+				}
+			case reflect.String:
+				for way, nv := range mutateBytes([]byte(v0.String())) {
+					nv := nv
+					emit(cls+":"+way, func(t *pb.Transaction) { leaf(t).SetString(string(nv)) })
+				}
+			case reflect.Int32, reflect.Int64:
+				emit(cls+":inc", func(t *pb.Transaction) { l := leaf(t); l.SetInt(l.Int() + 1) })
+			case reflect.Bool:
+				emit(cls+":toggle", func(t *pb.Transaction) { l := leaf(t); l.SetBool(!l.Bool()) })
+			case reflect.Map:
+				emit(cls+":addkey", func(t *pb.Transaction) {
+					l := leaf(t)
+					if l.IsNil() {
+						l.Set(reflect.MakeMap(l.Type()))
+					}
+					l.SetMapIndex(reflect.ValueOf("zz"), reflect.ValueOf([]byte{1}))
+				})
+			}
+		}
+	}
+	// containers: grow by a zero element, drop / duplicate the first element, swap the first two
+	for _, c := range []string{"TxInputs", "TxOutputs", "TxInputsExt", "TxOutputsExt", "ContractRequests", "AuthRequire", "InitiatorSigns", "AuthRequireSigns"} {
+		c := c
+		cls := "list:" + c
+		if form == "acctini" && c == "AuthRequireSigns" {
+			continue
+		}
+		if c == "InitiatorSigns" && form == "acctini" {
+			cls = "sigarea:" + c // a valid entry of an account initiator can be repeated
+		}
+		if (c == "InitiatorSigns" && form != "acctini") || ((c == "InitiatorSigns" || c == "AuthRequireSigns") && form == "xuper") {
+			// entries beyond the first of an address initiator, and all classic entries beside a XuperSign, are never read
+			cls = "sigarea:" + c
+		}
+		get := func(t *pb.Transaction) reflect.Value { return reflect.ValueOf(t).Elem().FieldByName(c) }
+		n := get(tx).Len()
+		emit(cls+":grow", func(t *pb.Transaction) {
+			l := get(t)
+			et := l.Type().Elem()
+			var z reflect.Value
+			if et.Kind() == reflect.Ptr {
+				z = reflect.New(et.Elem())
+			} else {
+				z = reflect.Zero(et)
+			}
+			l.Set(reflect.Append(l, z))
+		})
+		if n > 0 {
+			emit(cls+":drop", func(t *pb.Transaction) { l := get(t); l.Set(l.Slice(1, l.Len())) })
+			emit(cls+":dup", func(t *pb.Transaction) { l := get(t); l.Set(reflect.Append(l, l.Index(0))) })
+		}
+		if n > 1 {
+			emit(cls+":swap", func(t *pb.Transaction) {
+				l := get(t)
+				a, b := l.Index(0).Interface(), l.Index(1).Interface()
+				l.Index(0).Set(reflect.ValueOf(b))
+				l.Index(1).Set(reflect.ValueOf(a))
+			})
+		}
+	}
+	emit("list:ContractRequests:grow-with-limit", func(t *pb.Transaction) {
+		t.ContractRequests = append(t.ContractRequests, &protos.InvokeRequest{ModuleName: "xkernel", ResourceLimits: []*protos.ResourceLimit{{Type: 1, Limit: 5}}})
+	})
+	emit("XuperSign:add-empty", func(t *pb.Transaction) {
+		if t.XuperSign == nil {
+			t.XuperSign = &pb.XuperSignature{}
+		} else {
+			t.XuperSign = nil
+		}
+	})
+	emit("HDInfo:presence", func(t *pb.Transaction) {
+		if t.HDInfo == nil {
+			t.HDInfo = &pb.HDInfo{HdPublicKey: []byte("k")}
+		} else {
+			t.HDInfo = nil
+		}
+	})
+	// signatures and signers: another key signs, key and signature both replaced, replay from another transaction
+	symSig := func(tok string) []byte { return []byte(symPrefix + tok) }
+	slots := func(t *pb.Transaction) []*protos.SignatureInfo {
+		return append(append([]*protos.SignatureInfo{}, t.InitiatorSigns...), t.AuthRequireSigns...)
+	}
+	for i := range slots(tx) {
+		i := i
+		name := "InitiatorSigns"
+		if i >= len(tx.InitiatorSigns) {
+			name = "AuthRequireSigns"
+			if form == "acctini" {
+				continue
+			}
+		}
+		emit("signature:"+name+":other-key-signs", func(t *pb.Transaction) { slots(t)[i].Sign = symSig("S6.N") })
+		emit("signature:"+name+":other-key-and-pubkey", func(t *pb.Transaction) {
+			slots(t)[i].PublicKey = acct(6).PubJSON
+			slots(t)[i].Sign = symSig("S6.N")
+		})
+		emit("signature:"+name+":replayed-from-other-tx", func(t *pb.Transaction) {
+			tok := string(slots(t)[i].Sign[len(symPrefix):])
+			slots(t)[i].Sign = symSig(tok[:strings.LastIndex(tok, ".")] + ".O")
+		})
+	}
+	if len(tx.InitiatorSigns) > 0 && len(tx.AuthRequireSigns) > 0 && form != "acctini" {
+		emit("signature:swap-initiator-and-signer", func(t *pb.Transaction) {
+			t.InitiatorSigns[0], t.AuthRequireSigns[0] = t.AuthRequireSigns[0], t.InitiatorSigns[0]
+		})
+	}
+	if tx.XuperSign != nil {
+		emit("signature:XuperSign:other-keys-sign", func(t *pb.Transaction) { t.XuperSign.Signature = symSig("X0_6.N") })
+		emit("signature:XuperSign:replayed-from-other-tx", func(t *pb.Transaction) { t.XuperSign.Signature = symSig("X0_1.O") })
+		emit("signature:XuperSign:other-keys-and-pubkeys", func(t *pb.Transaction) {
+			t.XuperSign.PublicKeys[1] = []byte(acct(6).PubJSON)
+			t.XuperSign.Signature = symSig("X0_6.N")
+		})
+	}
+	emit("signer:Initiator:other", func(t *pb.Transaction) { t.Initiator = acct(6).Address })
+	if len(tx.AuthRequire) > 0 {
+		emit("signer:AuthRequire:other", func(t *pb.Transaction) { t.AuthRequire[0] = acct(6).Address })
+	}
+	emit("owner:TxInputs:other", func(t *pb.Transaction) { t.TxInputs[0].FromAddr = []byte(acct(6).Address) })
+	emit("owner:TxInputs:other-account", func(t *pb.Transaction) { t.TxInputs[0].FromAddr = []byte(acctName(2)) })
+	return res
+}
+
+// evalPathAlloc is evalPath that allocates nil messages on the way (mutating a field below a nil sub-message)
+func evalPathAlloc(root reflect.Value, path string, idx []int) (reflect.Value, bool) {
+	v := root
+	ii := 0
+	for _, seg := range strings.Split(path, ".") {
+		isIdx := strings.HasSuffix(seg, "[]")
+		name := strings.TrimSuffix(seg, "[]")
+		for v.Kind() == reflect.Ptr {
+			if v.IsNil() {
+				v.Set(reflect.New(v.Type().Elem()))
+			}
+			v = v.Elem()
+		}
+		v = v.FieldByName(name)
+		if isIdx {
+			if ii >= len(idx) || idx[ii] >= v.Len() {
+				return v, false
+			}
+			v = v.Index(idx[ii])
+			ii++
+		}
+	}
+	return v, true
+}
+
+func genC07(tier string, rng *xvlib.Rng, run func(string, bool)) {
+	thorough := tier == "thorough"
+	initSymTab()
+	// 1. pre-images: extracted schemas against the real hashes (all versions); Lean bytes against the schema bytes (v3)
+	nPre := 600
+	if thorough {
+		nPre = 12000
+	}
+	for i := 0; i < nPre; i++ {
+		tx := randTx(rng, []int32{3, 3, 3, 4, 100}[rng.Intn(5)])
+		s := specOf(tx)
+		run("d3 "+s, true)
+		run("i3 "+s, true)
+		if i < 1 {
+			out.Sample(map[string]string{"op": "d3 " + s, "impl": execC07("d3 "+s, false)})
+		}
+		run("d1 "+specOf(randTx(rng, int32(1+rng.Intn(2)))), true)
+	}
+	// 2. the v1/v2 collision (known finding) and its v3 control
+	for _, v := range []int{1, 2, 3} {
+		run(fmt.Sprintf("k1 %d addr-amount", v), true)
+	}
+	// 3. schema-walking mutation of accepted transactions of every form and version
+	forms := []string{"ak", "multi", "account", "acctini", "xuper"}
+	nm := 0
+	for _, ver := range []int{3, 2, 1} {
+		specs := baseSpecs(ver)
+		for _, form := range forms {
+			bs := specs[form]
+			base := parseSpec(bs)
+			printingMutant = false
+			run(fmt.Sprintf("vt cls=base txid=M base=%s mut=%s", bs, strings.Replace(bs, ".M", ".B", -1)), true)
+			run(fmt.Sprintf("vt cls=txid:garbage txid=X base=%s mut=%s", bs, strings.Replace(bs, ".M", ".B", -1)), true)
+			muts := schemaMutants(base, form)
+			sort.SliceStable(muts, func(i, j int) bool { return muts[i].cls < muts[j].cls })
+			for _, mu := range muts {
+				cls := mu.cls
+				if proto.Equal(mu.tx, base) {
+					cls = "noop"
+				}
+				printingMutant = true
+				ms := specOf(mu.tx)
+				printingMutant = false
+				for _, id := range []string{"B", "M"} {
+					c := cls
+					if id == "B" && strings.HasPrefix(cls, "sigarea:") {
+						c = strings.TrimPrefix(cls, "sigarea:") // with the old id kept, the id check must fire
+					}
+					l := fmt.Sprintf("vt cls=%s txid=%s base=%s mut=%s", c, id, bs, ms)
+					run(l, true)
+					if nm < 2 && strings.HasPrefix(cls, "Desc") {
+						out.Sample(map[string]string{"op": l, "impl": execC07(l, false)})
+						nm++
+					}
+				}
+			}
+		}
+	}
+	out.Stats.Exhaustive = false
+	out.Stats.Rule = fmt.Sprintf("d3/i3/d1: %d random transactions per encoder (all fields, empty/nil variants, versions 3,4,100 / 1,2), extracted schema bytes double-SHA-256 checked against MakeTxDigestHash and MakeTransactionID; vt: accepted transactions of 5 forms (address initiator, 2 extra signers, account-owned input via ACL, account initiator, aggregated XuperSign) × versions 3,2,1 × every single-field mutation reached by walking the %d leaf paths of the Transaction message (flip/truncate/append/clear, +1, toggle, map key), list grow/drop/dup/swap, signature by another key / with another public key / replayed from another transaction / swapped, signer and owner replaced — each once with the old txid kept and once with the txid recomputed — through the real State.VerifyTx; distinct by op line", nPre, len(schemas.TxFields))
+	out.Stats.Notes = append(out.Stats.Notes,
+		"covered entry point: State.VerifyTx (ImmediateVerifyTx: txid recomputation, verifySignatures/verifyXuperSign, verifyUTXOPermission) on a real State over a real ledger with an in-memory ACL table (account Cn is controlled by address An, threshold 1); contract requests / RWSet re-execution (C09) and Chain.SubmitTx / the block path (verifyDAGTxs) are not driven",
+		"observations (distribution keys observation:*): Blockid, ReceivedTimestamp and ModifyBlock.* are outside digest and id, so changing them is accepted",
+		"v1/v2 transactions: vt lines are judged by the oracle only (the Lean model has the v3 encoder byte for byte and the v1/v2 stream abstractly)")
+}
